@@ -433,6 +433,10 @@ SELECT_SPEC = r"""
                 && (forall|i: int| 0 <= i < msg_data(r->Ok_0).len() ==> #[trigger] msg_data(r->Ok_0)[i] is Terminate),           // #obl:select.outside_stream_end_resynthesised_only_when_both_sides_terminated
             !old(self).synth_due() ==> side_step(&old(self).left, &final(self).left, old(self).reset_due(), r, left_g::<OutL, OutR>(), BinaryElement::LeftEnd),      // #obl:select.left_side_step
             !old(self).synth_due() ==> side_step(&old(self).right, &final(self).right, old(self).reset_due(), r, right_g::<OutL, OutR>(), BinaryElement::RightEnd),   // #obl:select.right_side_step
+            // a new round starts by asking the side that comes from the loop first (it tells whether there is a new round at
+            // all): in the call that restarts the round nothing is replayed from the cache yet
+            !old(self).synth_due() && old(self).reset_due() && old(self).left.cached ==> final(self).left.cache_pointer == 0,     // #obl:select.new_round_asks_the_loop_side_first.left_cached
+            !old(self).synth_due() && old(self).reset_due() && old(self).right.cached ==> final(self).right.cache_pointer == 0,   // #obl:select.new_round_asks_the_loop_side_first.right_cached
             // at most one side is read per call
             final(self).left.link() == old(self).left.link() || final(self).right.link() == old(self).right.link(),            // #obl:select.reads_one_side_per_call
 """
